@@ -7,7 +7,11 @@ P1 = ['ins:1,ins:2,trav', 'ins:2,ins:3,find:1', 'trav,ins:4,count:2']
 P2 = ['ins:5,ins:1,trav,ins:9', 'ins:3,ins:5,find:9', 'trav,ins:2,trav']
 P3 = ['ins:1,ins:1,ins:2', 'ins:1,ins:2,trav', 'count:1,trav,ins:2']
 P4 = ['ins:8,ins:4,ins:12', 'ins:2,ins:6,ins:10', 'ins:4,ins:6,trav', 'trav,find:12,ins:1']     # keys adjacent in split order, bucket doubling
-SCEN = [('uset-const', 'uset', 'const', P1), ('uset-id', 'uset', 'id', P4), ('umset', 'umset', 'const', P3), ('umset-id', 'umset', 'id', P3),
+# bucket initialisation after the table doubled racing two inserts that land just before / just behind the new dummy node (insert_dummy_node re-scan)
+P5 = ['rehash:4,find:2,count:18', 'ins:12,ins:28', 'ins:2,ins:18', 'ins:10,find:12,trav']
+P6 = ['rehash:8,find:4,find:6', 'ins:8,ins:24,ins:2', 'ins:4,ins:20,ins:6', 'ins:12,ins:14,trav']
+SCEN = [('uset-dummy', 'uset', 'id', P5), ('uset-dummy2', 'uset', 'id', P6), ('umset-dummy', 'umset', 'id', P5), ('umap-dummy', 'umap', 'id', P5),
+        ('uset-const', 'uset', 'const', P1), ('uset-id', 'uset', 'id', P4), ('umset', 'umset', 'const', P3), ('umset-id', 'umset', 'id', P3),
         ('oset', 'oset', 'id', P2), ('omset', 'omset', 'id', P3), ('umap', 'umap', 'low', P1), ('omap', 'omap', 'id', P2), ('oset4', 'oset', 'id', P4)]
 
 
